@@ -336,6 +336,107 @@ def rw_assert_msg(text, log, where):
         pos = m.end()
 
 
+def receiver_start(masked, r):
+    """start index of the postfix expression that ends at r (just before `.method`)"""
+    k = r
+    while k > 0:
+        ch = masked[k - 1]
+        if ch.isalnum() or ch in '_.':
+            k -= 1
+        elif ch in ')]':
+            opn = {')': '(', ']': '['}[ch]
+            depth = 0
+            j = k - 1
+            while j >= 0:
+                if masked[j] == ch:
+                    depth += 1
+                elif masked[j] == opn:
+                    depth -= 1
+                    if depth == 0:
+                        break
+                j -= 1
+            k = j
+        elif ch.isspace():
+            j = k - 1
+            while j > 0 and masked[j - 1].isspace():
+                j -= 1
+            if masked[k:r + 1].lstrip().startswith('.') and j > 0 and (masked[j - 1].isalnum() or masked[j - 1] in '_)]'):
+                k = j
+            else:
+                break
+        else:
+            break
+    return k
+
+
+def rw_R16_position(text, log, where):
+    """X.iter().position(|&a| a == LIT) -> slice_position(X, LIT)   (definition of Iterator::position for an equality test)"""
+    rx = re.compile(r'\.\s*iter\(\)\s*\.\s*position\(\s*\|\s*&\s*(\w+)\s*\|\s*\1\s*==\s*("[^"]*")\s*\)')
+    while True:
+        m = rx.search(text)
+        if not m:
+            return text
+        masked = mask_code(text)
+        k = receiver_start(masked, m.start())
+        recv = text[k:m.start()].strip()
+        new = 'slice_position(%s, %s)' % (recv, m.group(2))
+        log.append({'rule': 'R16', 'where': where, 'before': text[k:m.end()], 'after': new})
+        text = text[:k] + new + text[m.end():]
+
+
+def rw_R17_map_or_else(text, log, where):
+    """OPT.map_or_else(|| A, |x| B) -> (match OPT { None => A, Some(x) => B })   (definition of Option::map_or_else)"""
+    while True:
+        masked = mask_code(text)
+        m = re.search(r'\.\s*map_or_else\s*\(', masked)
+        if not m:
+            return text
+        o = m.end() - 1
+        c = match_close(masked, o)
+        args = split_top_commas(text[o + 1:c])
+        if len(args) != 2:
+            raise ExtractError('R17: unexpected map_or_else shape in ' + where)
+        ma = re.match(r'\|\s*\|\s*(.*)$', args[0], flags=re.S)
+        mb = re.match(r'\|\s*([A-Za-z_][A-Za-z_0-9]*)\s*\|\s*(.*)$', args[1], flags=re.S)
+        if not ma or not mb:
+            raise ExtractError('R17: unexpected closures in map_or_else in ' + where)
+        k = receiver_start(masked, m.start())
+        recv = text[k:m.start()].strip()
+        new = '(match %s { None => %s, Some(%s) => %s })' % (recv, ma.group(1).strip(), mb.group(1), mb.group(2).strip())
+        log.append({'rule': 'R17', 'where': where, 'before': text[k:c + 1], 'after': new})
+        text = text[:k] + new + text[c + 1:]
+
+
+def rw_R18_to_strings(text, log, where):
+    """X.iter().map(ToString::to_string).collect() -> strs_to_owned(X)"""
+    rx = re.compile(r'\.\s*iter\(\)\s*\.\s*map\(\s*ToString::to_string\s*\)\s*\.\s*collect\(\)')
+    while True:
+        m = rx.search(text)
+        if not m:
+            return text
+        masked = mask_code(text)
+        k = receiver_start(masked, m.start())
+        recv = text[k:m.start()].strip()
+        new = 'strs_to_owned(&%s)' % recv
+        log.append({'rule': 'R18', 'where': where, 'before': text[k:m.end()], 'after': new})
+        text = text[:k] + new + text[m.end():]
+
+
+def rw_R19_join(text, log, where):
+    """X.join(LIT) -> join_strs(&X, LIT)   (opaque String; the slice expression X keeps its bounds obligations)"""
+    rx = re.compile(r'\.\s*join\(\s*("[^"]*")\s*\)')
+    while True:
+        m = rx.search(text)
+        if not m:
+            return text
+        masked = mask_code(text)
+        k = receiver_start(masked, m.start())
+        recv = text[k:m.start()].strip()
+        new = 'join_strs(&%s, %s)' % (recv, m.group(1))
+        log.append({'rule': 'R19', 'where': where, 'before': text[k:m.end()], 'after': new})
+        text = text[:k] + new + text[m.end():]
+
+
 def rw_R9_is_some_and(text, log, where):
     while True:
         masked = mask_code(text)
@@ -345,38 +446,8 @@ def rw_R9_is_some_and(text, log, where):
         o = masked.index('(', m.start())
         c = match_close(masked, o)
         body = text[m.end():c].strip()
-        # receiver: walk back over a postfix expression
         r = m.start()
-        k = r
-        while k > 0:
-            ch = masked[k - 1]
-            if ch.isalnum() or ch in '_.':
-                k -= 1
-            elif ch in ')]':
-                # find matching open
-                opn = {')': '(', ']': '['}[ch]
-                depth = 0
-                j = k - 1
-                while j >= 0:
-                    if masked[j] == ch:
-                        depth += 1
-                    elif masked[j] == opn:
-                        depth -= 1
-                        if depth == 0:
-                            break
-                    j -= 1
-                k = j
-            elif ch.isspace():
-                # allow whitespace/newline inside a method chain only if followed by '.'
-                j = k - 1
-                while j > 0 and masked[j - 1].isspace():
-                    j -= 1
-                if masked[k:r].lstrip().startswith('.') and j > 0 and (masked[j - 1].isalnum() or masked[j - 1] in '_)]'):
-                    k = j
-                else:
-                    break
-            else:
-                break
+        k = receiver_start(masked, r)
         recv = text[k:r].strip()
         new = '(match %s { Some(%s) => %s, None => false })' % (recv, m.group(1), body)
         log.append({'rule': 'R9', 'where': where, 'before': text[k:c + 1], 'after': new})
@@ -494,7 +565,16 @@ def rw_R1_for_array(body, log, where):
         elems = split_top_commas(body[ob + 1:cbk])
         inner = body[j + 1:cb]
         pat = body[m.start(1):m.end(1)]
-        new = ''.join('{ let %s = %s; %s }\n' % (pat, e, inner) for e in elems)
+        def bind(pat, e):
+            # tuple pattern over a tuple literal: bind component-wise (same meaning; keeps constants visible
+            # to the solver instead of hiding them behind a tuple constructor)
+            if pat.startswith('(') and e.startswith('(') and e.endswith(')'):
+                ps = split_top_commas(pat[1:-1])
+                es = split_top_commas(e[1:-1])
+                if len(ps) == len(es) and all(re.match(r'^[a-z_][A-Za-z_0-9]*$', q) for q in ps):
+                    return ' '.join('let %s = %s;' % (q, x) for q, x in zip(ps, es))
+            return 'let %s = %s;' % (pat, e)
+        new = ''.join('{ %s %s }\n' % (bind(pat, e), inner) for e in elems)
         log.append({'rule': 'R1', 'where': where, 'elements': len(elems)})
         body = body[:m.start()] + new + body[cb + 1:]
 
@@ -519,6 +599,10 @@ def apply_text_rules(text, log, where, opts):
     text = rw_panic_args(text, log, where)
     text = rw_assert_msg(text, log, where)
     text = rw_R9_is_some_and(text, log, where)
+    text = rw_R16_position(text, log, where)
+    text = rw_R17_map_or_else(text, log, where)
+    text = rw_R18_to_strings(text, log, where)
+    text = rw_R19_join(text, log, where)
     text = rw_R14_closure_underscore(text, log, where)
     text = rw_R1_for_array(text, log, where)
     for before, after in opts.get('subst', []):
